@@ -109,13 +109,26 @@ func alphaRich() qcheck.Alpha {
 	return a
 }
 
+// alphaChurn: parked / settled messages, a burst of traffic on another route that takes the memory store past the size
+// thresholds of its bookkeeping (order-list compaction at 1024 entries), then every transition that makes a parked
+// message ready again. Runs with the REAL thresholds.
+func alphaChurn() qcheck.Alpha {
+	a := alphaRich()
+	a.Deq = []qcheck.DeqSpec{{Batch: 100, TTL: ttl}}
+	a.LeaseOps = []string{"ack", "dead"}
+	a.LeaseBatch = false
+	a.Ticks = []time.Duration{ttl}
+	a.Churn = 1500
+	return a
+}
+
 
 const shards = 6
 
 func TestCheck(t *testing.T) {
 	crashkit.MaybeChild()
 	r := runner.Start("C05", "model_checking")
-	if qcheck.HandleReplay(r, []qcheck.Spec{{Name: "c05", Extra: readiness}}, nil) {
+	if qcheck.HandleReplay(r, []qcheck.Spec{{Name: "c05", Extra: readiness}, {Name: "c05-churn", Extra: readiness}}, nil) {
 		r.Finish()
 	}
 	var jobs []job
@@ -126,6 +139,9 @@ func TestCheck(t *testing.T) {
 	for pi := range qcheck.RichPrefixes(alphaRich()) {
 		jobs = append(jobs, job{"memory", runner.Pick(r, 5, 6), 0, true, pi + 1}, job{"sqlite", runner.Pick(r, 4, 5), 0, false, pi + 1})
 	}
+	for pi := range qcheck.RichPrefixes(alphaRich()) {
+		jobs = append(jobs, job{"memory-churn", runner.Pick(r, 4, 5), 0, false, pi + 1})
+	}
 	budget := runner.Pick(r, 60*time.Second, 10*time.Minute)
 	if ji, ok := runner.Job(); ok {
 		j := jobs[ji]
@@ -135,7 +151,11 @@ func TestCheck(t *testing.T) {
 			al, nsh = alphaRich(), 1
 			pre = qcheck.RichPrefixes(al)[j.prefix-1]
 		}
-		spec := qcheck.Spec{Name: "c05", Backend: j.backend, Cfg: qmodel.Config{}, Alpha: al, Depth: j.depth, Workers: 3,
+		name := "c05"
+		if j.backend == "memory-churn" {
+			j.backend, al, name = "memory", alphaChurn(), "c05-churn"
+		}
+		spec := qcheck.Spec{Name: name, Backend: j.backend, Cfg: qmodel.Config{}, Alpha: al, Depth: j.depth, Workers: 3,
 			RootShard: j.shard, RootShards: nsh, ScaleCompaction: j.scaled, Prefix: pre.Ops, PrefixName: pre.Name,
 			MaxTrans: runner.Pick(r, int64(3_000_000), int64(40_000_000)), Deadline: time.Now().Add(budget), Extra: readiness}
 		res := qcheck.Run(spec)
